@@ -332,36 +332,36 @@ theorem decode_all_total (c : DecodeCfg) (base : Nat) (bs : Bytes)
 
 /-- **Every standard encoding is decoded to the instruction it denotes**, with exact consumption:
 if `bs` encodes `i` according to the opcode/operand tables of DWARF §6.4.2/§7.24 (`Spec.Cfi.Encodes`:
-all three primary opcodes, every extended opcode with unsigned-LEB128 / fixed-size / block /
-register operands — any LEB128 padding up to 10 bytes — `GNU_args_size`, and
+the three primary opcodes, every extended opcode with unsigned / signed LEB128, fixed-size, block
+and register operands — any LEB128 padding up to 10 bytes — `GNU_args_size`, and
 `AARCH64_negate_ra_state` for an AArch64 consumer), then `CallFrameInstruction::parse` on `bs`
 followed by anything returns `i` and leaves exactly what followed.
-*Partial*: the four opcodes with a signed LEB128 operand (`offset_extended_sf`, `def_cfa_sf`,
-`def_cfa_offset_sf`, `val_offset_sf`) and `set_loc` through a `DW_EH_PE` encoding are not in
-`Encodes` (the signed LEB128 value theorem belongs to C09 and has not landed; pointer encodings
-are C05's); they are covered by the differential run and the harness's independent decoder.
-The converse direction is `decode_sound_partial`. -/
+*Partial*: `DW_CFA_set_loc` is covered for the plain address operand only (`address_encoding =
+None`: CIE programs, `.debug_frame`, `.eh_frame` CIEs without `R`); its operand under a
+`DW_EH_PE` pointer encoding is C05's `parse_encoded_pointer` and is tied differentially. -/
 theorem decode_complete_partial (m : Mode) (e : Endian) (asz : Nat) (aarch64 : Bool) (p : PtrParams)
     (i : Instr) (bs : Bytes) (h : Spec.Cfi.Encodes e asz aarch64 i bs) (pos : Nat) (rest : Bytes) :
     parse (Spec.Cfi.cfgOf m e asz aarch64 p) pos (bs ++ rest) = .ok (i, rest) :=
   Spec.Cfi.parse_encodes h pos rest
 
 /-- **Whatever `parse` accepts is an encoding from the tables**: if `CallFrameInstruction::parse`
-(no `DW_EH_PE` pointer encoding in force) returns `(i, rest)` and `i` is not one of the four
-signed-operand instructions, then the consumed prefix is an encoding of `i` per DWARF
-§6.4.2/§7.24 — opcode, operand kinds, LEB128 well-formedness, register numbers ≤ 0xffff, block
-lengths, address size ∈ {1,2,4,8} for `set_loc`, AArch64 vendor for `negate_ra_state`.
-*Partial* for the same reason as `decode_complete_partial`. -/
+(no `DW_EH_PE` pointer encoding in force) returns `(i, rest)`, then the consumed prefix is an
+encoding of `i` per DWARF §6.4.2/§7.24 — opcode, operand kinds, LEB128 well-formedness and range,
+register numbers ≤ 0xffff, block lengths, address size ∈ {1,2,4,8} for `set_loc`, AArch64 vendor
+for `negate_ra_state`.  Together with `decode_complete_partial`: `parse` accepts exactly the
+encodings of the tables and decodes each to the instruction it denotes.
+*Partial* for the same single reason as `decode_complete_partial`. -/
 theorem decode_sound_partial (m : Mode) (e : Endian) (asz : Nat) (aarch64 : Bool) (p : PtrParams) (pos : Nat)
     (bs : Bytes) (i : Instr) (rest : Bytes)
-    (h : parse (Spec.Cfi.cfgOf m e asz aarch64 p) pos bs = .ok (i, rest))
-    (hs : Spec.Cfi.signedOperand i = false) :
+    (h : parse (Spec.Cfi.cfgOf m e asz aarch64 p) pos bs = .ok (i, rest)) :
     ∃ pre, bs = pre ++ rest ∧ Spec.Cfi.Encodes e asz aarch64 i pre :=
-  Spec.Cfi.parse_sound h hs
+  Spec.Cfi.parse_sound h
 
 /-- the hypothesis is satisfiable: `DW_CFA_def_cfa r7, 8` and a padded `DW_CFA_offset_extended` -/
 example : Spec.Cfi.Encodes .little 8 false (.defCfa 7 8) [0x0c, 0x07, 0x08] :=
   .defCfa 7 8 [0x07] [0x08] (by unfold Spec.Cfi.RegEnc Spec.Cfi.ULeb; decide) (by unfold Spec.Cfi.ULeb; decide)
+example : Spec.Cfi.Encodes .little 8 false (.defCfaOffsetSf (-2)) [0x13, 0x7e] :=
+  .defCfaOffsetSf (-2) [0x7e] (by unfold Spec.Cfi.SLeb; decide)
 example : Spec.Cfi.Encodes .little 8 false (.offset 300 2) [0x05, 0xac, 0x02, 0x82, 0x00] :=
   .offsetExtended 300 2 [0xac, 0x02] [0x82, 0x00] (by unfold Spec.Cfi.RegEnc Spec.Cfi.ULeb; decide)
     (by unfold Spec.Cfi.ULeb; decide)
